@@ -121,12 +121,34 @@ impl RecL {
         let mut scope: Vec<u64> = Vec::new();
         let mut nav: Vec<Value> = Vec::new();
         let par: Option<u64>;
+        // climbing on from the span the callback is about (the event's span): .parent() repeatedly up to the root,
+        // .parent().map(|p| p.scope()), and the scope from the root
+        let mut pch: Vec<u64> = Vec::new();
+        let mut psc: Vec<u64> = Vec::new();
+        let mut root: Vec<u64> = Vec::new();
+        let start = if let Some(ev) = ev { ctx.event_span(ev) } else { ctx.span(span.unwrap()) };
+        if let Some(s) = start.as_ref() {
+            let mut p = s.parent();
+            if let Some(p0) = p.as_ref() {
+                psc = p0.scope().map(|x| canon(&self.log, &x.id())).collect();
+            }
+            while let Some(q) = p {
+                pch.push(canon(&self.log, &q.id()));
+                p = q.parent();
+            }
+        }
         let sc = if let Some(ev) = ev {
-            par = ctx.event_span(ev).and_then(|s| s.parent()).map(|p| canon(&self.log, &p.id()));
+            par = start.as_ref().and_then(|s| s.parent()).map(|p| canon(&self.log, &p.id()));
+            if let Some(sc2) = ctx.event_scope(ev) {
+                root = sc2.from_root().map(|x| canon(&self.log, &x.id())).collect();
+            }
             ctx.event_scope(ev)
         } else {
             let id = span.unwrap();
-            par = ctx.span(id).and_then(|s| s.parent()).map(|p| canon(&self.log, &p.id()));
+            par = start.as_ref().and_then(|s| s.parent()).map(|p| canon(&self.log, &p.id()));
+            if let Some(sc2) = ctx.span_scope(id) {
+                root = sc2.from_root().map(|x| canon(&self.log, &x.id())).collect();
+            }
             ctx.span_scope(id)
         };
         if let Some(sc) = sc {
@@ -137,7 +159,7 @@ impl RecL {
                 nav.push(json!([p, s2]));
             }
         }
-        push(&self.log, json!({"d": self.name, "w": w, "x": x, "cur": cur, "scope": scope, "par": par, "nav": nav}));
+        push(&self.log, json!({"d": self.name, "w": w, "x": x, "cur": cur, "scope": scope, "par": par, "nav": nav, "pch": pch, "psc": psc, "root": root}));
     }
 }
 impl<C> Subscribe<C> for RecL
